@@ -6,8 +6,8 @@ print("| property | functions under contract | obligations claimed | discharged 
 print("|---|---|---|---|---|---|---|")
 for f in sorted(glob.glob(os.path.join(V, 'evidence', 'C*.json'))):
     d = json.load(open(f)); c = d['coverage']
-    print("| %s | %d | %d | %d | %d | %d | %.0f |" % (d['property_id'], len(c.get('functions', [])), c['obligations'], c['discharged'],
-          len(c.get('unclaimed_obligations', [])), len(c.get('known_findings_printed', [])), d['wall_s']))
+    print("| %s | %d | %d | %d | %d | %d | %.0f |" % (d['property_id'], len(c.get('functions') or []), c['obligations'], c['discharged'],
+          len(c.get('unclaimed_obligations') or []), len(c.get('known_findings_printed') or []), d['wall_s']))
 print()
 res = json.load(open(os.path.join(V, 'seeded', 'RESULTS.json')))
 print("| seeded change | property | caught by the quick check | first failing obligations |")
